@@ -21,10 +21,10 @@ RULE = ("EXHAUSTIVE over all (edition, variation) pairs of reporters-db that use
 ASSUMPTIONS = ["independent key of a case citation = (class, volume, page, guessed-edition-or-written reporter)",
                "variations whose guessed edition differs from (or is missing next to) the canonical one's are "
                "ambiguous in the database and only checked against the independent key"]
-FLOORS = {"quick": {"db_pairs": 2100, "custom_template_pairs": 80, "db_pairs_unambiguous": 1500, "db_pairs_unambiguous_by_database": 1200, "roundtrips": 1200, "pools": 80,
+FLOORS = {"quick": {"db_pairs": 2100, "custom_template_pairs": 80, "cross_template_pairs": 15, "db_pairs_unambiguous": 1500, "db_pairs_unambiguous_by_database": 1200, "roundtrips": 1200, "pools": 80,
                     "pool_pairs": 100000, "pool_equal_pairs": 300, "placeholder_objects": 50,
                     "cross_kind_pairs": 20000},
-          "thorough": {"db_pairs": 2100, "custom_template_pairs": 80, "db_pairs_unambiguous": 1500, "db_pairs_unambiguous_by_database": 1200, "pools": 1500, "pool_pairs": 4000000}}
+          "thorough": {"db_pairs": 2100, "custom_template_pairs": 80, "cross_template_pairs": 15, "db_pairs_unambiguous": 1500, "db_pairs_unambiguous_by_database": 1200, "pools": 1500, "pool_pairs": 4000000}}
 NPOOL = {"quick": 12, "thorough": 150}
 SHARDS = {"quick": 8, "thorough": 14}
 REPS = ["U.S.", "U. S.", "F.2d", "F. 2d", "S. Ct.", "S.Ct.", "Mass.", "F.3d", "Wash.", "A.2d", "A. 2d"]
@@ -176,6 +176,55 @@ def db_pairs(spec, rec):
             rec.sample(dict(case, equal=(c == canon)))
 
 
+def cross_template(spec, rec):
+    """The same volume / reporter / page written in two templates of one edition (e.g. with the year in
+    the middle, '100 S. Ct. (1980) 200', and in the plain form '100 S. Ct. 200') cites the same document."""
+    import re as _re
+    from vmon.rxgen import sample
+    from eyecite.models import FullCaseCitation, Resource
+    rng = random.Random(spec["seed"] + 3)
+    std = set(gen.DB.std_all) | {en for en, _ in gen.DB.pairs}
+    n = 0
+    for e in gen.DB.cit_extractors:
+        if e.extra["short"] or not (e.regex.startswith(gen.PRE) and e.regex.endswith(gen.POST)):
+            continue
+        body = e.regex[len(gen.PRE):-len(gen.POST)]
+        try:
+            rx = _re.compile(body, e.flags)
+        except _re.error:
+            continue
+        if not set(rx.groupindex) - {"volume", "reporter", "page"} or not {"volume", "reporter", "page"} <= set(rx.groupindex):
+            continue
+        n += 1
+        if n % spec["nshards"] != spec["i"]:
+            continue
+        for _ in range(10):
+            try:
+                core = sample(body, rng, e.flags, maxrep=2)
+            except Exception:
+                break
+            m = rx.fullmatch(core)
+            if not m or "\n" in core:
+                continue
+            g = m.groupdict()
+            if not (g.get("volume") or "").isdigit() or not (g.get("page") or "").isdigit() or g.get("reporter") not in std:
+                continue
+            a = one_case(core)
+            b = one_case(f"{g['volume']} {g['reporter']} {g['page']}")
+            if a is None or b is None or type(a) is not FullCaseCitation or type(b) is not FullCaseCitation:
+                break
+            if a.groups.get("volume") != b.groups.get("volume") or a.groups.get("page") != b.groups.get("page"):
+                break     # another pattern read the text differently: not the same written components
+            rec.ev()
+            rec.count("cross_template_pairs")
+            rec.nontrivial(["xt", core])
+            exp = key(a) == key(b)
+            case = dict(template_text=core, plain_text=f"{g['volume']} {g['reporter']} {g['page']}")
+            if (a == b) != exp or (exp and (hash(a) != hash(b) or Resource(a) != Resource(b))):
+                rec.violation("C16.cross_template_equality", case, observed=(a == b), expected=exp)
+            break
+
+
 def roundtrips(spec, rec):
     rng = random.Random(spec["seed"] + 5)
     eds = sorted({en for en, _ in gen.DB.pairs} | set(gen.DB.std))
@@ -277,6 +326,7 @@ def pool(spec, rec, rng):
 def run_shard(spec, rec):
     instrument.install(rec, what=())
     db_pairs(spec, rec)
+    cross_template(spec, rec)
     roundtrips(spec, rec)
     rng = random.Random(spec["seed"] + 9)
     for _ in range(spec["npool"]):
@@ -285,7 +335,11 @@ def run_shard(spec, rec):
 
 def replay(w, rec):
     c = w["case"]
-    if "context" in c:
+    if "template_text" in c:
+        a, b = one_case(c["template_text"]), one_case(c["plain_text"])
+        if a is None or b is None or (a == b) != (key(a) == key(b)):
+            rec.violation(w["monitor"], c)
+    elif "context" in c:
         from eyecite.models import Resource
         a, b = one_case(c["context"]), one_case(c["canonical_text"])
         if a is None or b is None or not (a == b and hash(a) == hash(b) and Resource(a) == Resource(b)):
